@@ -73,7 +73,7 @@ def fresh_int(prefix='i'):
 # --------------------------------------------------------------- exception classes
 _BUILTIN_EXC = [
     'BaseException', 'Exception', 'GeneratorExit', 'KeyboardInterrupt', 'SystemExit',
-    'StopIteration', 'ArithmeticError', 'ZeroDivisionError', 'AssertionError',
+    'StopIteration', 'ArithmeticError', 'ZeroDivisionError', 'OverflowError', 'AssertionError',
     'AttributeError', 'LookupError', 'IndexError', 'KeyError', 'NotImplementedError',
     'RuntimeError', 'TypeError', 'ValueError', 'OSError', 'EnvironmentError',
     'ImportError', 'ResourceWarning', 'Warning',
